@@ -6,7 +6,8 @@
    containment, rect-as-polygon for polygon pairs) are checked on every run as
    law flags computed from the implementation's own answers. *)
 From Coq Require Import Lia.
-From GJ Require Import Base Kernel Series Ring Pairs Obj ObjSpec ObjProofs BoxLaws ContainsBoxes CoversBoxes.
+From GJ Require Import Base Kernel Series Ring PairSpec Pairs PairProofs Obj ObjSpec ObjProofs BoxLaws ContainsBoxes CoversBoxes
+  JordanRing JordanRect.
 Open Scope Z_scope.
 
 Theorem C09_within_is_contains_swapped : forall a b, o_within a b = o_contains b a.
@@ -59,12 +60,31 @@ Theorem C09_contains_implies_rect_covers : forall a b, obj_wf a -> obj_wf b -> o
   o_contains a b = true -> rect_contains_rect (o_rect a) (o_rect b) = true.
 Proof. exact o_contains_covers. Qed.
 
+(* A.Intersects(B) = B.Intersects(A) at the Geometry interface, all sixteen kind pairs, any
+   shapes; excluded: two polygons that both carry holes (JordanRing.v: ring x ring is exact as
+   point sets, hence symmetric; the other pairs delegate to one implementation or are exact) *)
+Theorem C09_geometry_intersects_symmetric : forall a b, no_hole_pair a b ->
+  g_intersects (g_of_shape a) (g_of_shape b) = g_intersects (g_of_shape b) (g_of_shape a).
+Proof. exact g_intersects_sym. Qed.
+
+(* a Rect used as a ring is the ring of its five corner points: the same record, so every
+   ring-level algorithm answers alike on both *)
+Theorem C09_rect_is_its_five_point_ring : forall q, rect_wf q ->
+  RR q = RS {| closed := true; pts := rect_points q |}.
+Proof. exact RR_as_RS. Qed.
+Theorem C09_rect_poly_is_five_point_polygon : forall q, rect_wf q ->
+  rect_poly q = Pg (rect_points q) [].
+Proof. intros q Hw. unfold rect_poly, Pg, Rg. cbn [map]. rewrite (RR_as_RS q Hw). reflexivity. Qed.
+
 (* non-vacuity: a rectangle containing a two-point line *)
 Example C09_covers_hypotheses_hold_somewhere : obj_wf (ORect ((0,0),(4,4))) /\ obj_wf (OLine [(1,1);(3,2)]) /\ o_empty (OLine [(1,1);(3,2)]) = false /\
   o_contains (ORect ((0,0),(4,4))) (OLine [(1,1);(3,2)]) = true.
 Proof. repeat split; try (cbn; lia); vm_compute; reflexivity. Qed.
 
 Print Assumptions C09_intersects_implies_rects_meet.
+Print Assumptions C09_geometry_intersects_symmetric.
+Print Assumptions C09_rect_is_its_five_point_ring.
+Print Assumptions C09_rect_poly_is_five_point_polygon.
 Print Assumptions C09_contains_implies_rect_covers.
 Print Assumptions C09_contains_implies_rects_meet_partial.
 Print Assumptions C09_feature_argument_contains.
